@@ -172,6 +172,34 @@ def alignment(reference_timestamps, estimated_timestamps):
     return out
 
 
+def separation(reference_sources, estimated_sources):
+    out = {}
+    sdr, isr, sir, sar, perm = direct(separation.bss_eval_images, reference_sources, estimated_sources)
+    out["Images - Source to Distortion"] = sdr.tolist()
+    out["Images - Image to Spatial"] = isr.tolist()
+    out["Images - Source to Interference"] = sir.tolist()
+    out["Images - Source to Artifact"] = sar.tolist()
+    out["Images - Source permutation"] = perm.tolist()
+    sdr, isr, sir, sar, perm = direct(separation.bss_eval_images_framewise, reference_sources, estimated_sources)
+    out["Images Frames - Source to Distortion"] = sdr.tolist()
+    out["Images Frames - Image to Spatial"] = isr.tolist()
+    out["Images Frames - Source to Interference"] = sir.tolist()
+    out["Images Frames - Source to Artifact"] = sar.tolist()
+    out["Images Frames - Source permutation"] = perm.tolist()
+    if reference_sources.ndim < 3 and estimated_sources.ndim < 3:
+        sdr, sir, sar, perm = direct(separation.bss_eval_sources_framewise, reference_sources, estimated_sources)
+        out["Sources Frames - Source to Distortion"] = sdr.tolist()
+        out["Sources Frames - Source to Interference"] = sir.tolist()
+        out["Sources Frames - Source to Artifact"] = sar.tolist()
+        out["Sources Frames - Source permutation"] = perm.tolist()
+        sdr, sir, sar, perm = direct(separation.bss_eval_sources, reference_sources, estimated_sources)
+        out["Sources - Source to Distortion"] = sdr.tolist()
+        out["Sources - Source to Interference"] = sir.tolist()
+        out["Sources - Source to Artifact"] = sar.tolist()
+        out["Sources - Source permutation"] = perm.tolist()
+    return out
+
+
 # documented result arity of every metric function that feeds a bundle entry (None = one scalar)
 ARITY = {
     "beat.f_measure": None, "beat.cemgil": 2, "beat.goto": None, "beat.p_score": None, "beat.continuity": 4,
